@@ -25,7 +25,7 @@ RULE = (
     "pairs whose misorientation angle lies within float32 rounding of a histogram bin edge "
     "(each may legitimately change bins: 1/n_pairs each). batched: stacks of 1..5 snapshots x "
     "worker counts 1..16 x ALL completion orders of the virtual pool, and stacks of 6..16 "
-    "snapshots x worker counts 1..16 x all completion orders with <= 3 (thorough 4) departures from "
+    "snapshots x worker counts 1..16 x all completion orders with <= 3 (thorough: 4 up to 12 snapshots) departures from "
     "in-order completion (thorough: 6 and 7 in full), through pool= and through "
     "the module-level Pool factory; every real-pool run (W = 1..4, external and self-made pool) must equal the model's "
     "behaviour. Non-trivial: >= 3 distinct pair angles / a schedule that is not submission "
@@ -161,7 +161,7 @@ def gen_cases(tier, seed):
     # (iterative deviation bounding; seed C14d needs length = k.W with k >= 2, k != W)
     for N in range(6, 17):
         for via in ("arg", "module"):
-            keys.append(dict(part="batched", N=N, via=via, dev=3 if tier == "quick" else 4))
+            keys.append(dict(part="batched", N=N, via=via, dev=3 if (tier == "quick" or N > 12) else 4))
     if tier == "thorough":
         for N in (6, 7):
             for via in ("arg", "module"):
